@@ -489,6 +489,14 @@ class C08(CreateProp):
             members.append(dict(base, opts=o2, outer="seeds", outname="other-name.torrent"))
             members.append(dict(base, outname="zzz.torrent", spelling="rel"))
             out.extend(members)
+        # payloads of a few MB (the progress bars then count in MiB): progress / quiet / verbose must not matter
+        for v in (1, 2, 3):
+            g += 1
+            tree = mk_tree("D2", (2 * 2 ** 20 + 17, 2 ** 20 - 1), name="big%d" % v)
+            base = {"creator": "cli", "version": v, "P": 16 * B, "tree": tree, "group": "c08-%d" % g, "opts": {},
+                    "outer": "plain", "clauses": ["C08.info", "C08.rest", "C08.name"]}
+            out.extend([dict(base), dict(base, progress=1), dict(base, progress=2), dict(base, pre=["-q"]),
+                        dict(base, pre=["-v"], progress=1), dict(base, creator=creators[v][0], progress=2)])
         return out
 
     def nontrivial(self, case):
